@@ -2088,19 +2088,37 @@ impl TypeChecker {
         // T0^(1/3) -> T0^(1/5) -> T0 into T0^5 -> T0^3 -> T0^15.
         for tv in &dtype_variables {
             let exponents = elaborated_statement.exponents_for(tv);
+            let overflow = |statement: &typed_ast::Statement| {
+                TypeCheckError::SubstitutionError(
+                    statement.pretty_print().to_string(),
+                    substitutions::SubstitutionError::ExponentOverflow,
+                )
+            };
+            // least common multiple of the denominators, with overflow checks (i128)
             let lcm = exponents
                 .iter()
-                .fold(1, |acc, e| num_integer::lcm(acc, *e.denom()));
+                .try_fold(1i128, |acc, e| {
+                    let gcd = num_integer::gcd(acc, *e.denom());
+                    acc.checked_mul(*e.denom() / gcd)
+                })
+                .ok_or_else(|| overflow(&elaborated_statement))?;
 
             if lcm != 1 {
                 let s = Substitution::single(
                     tv.clone(),
                     Type::Dimension(
-                        DType::from_type_variable(tv.clone()).power(Exponent::from_integer(lcm)),
+                        DType::from_type_variable(tv.clone())
+                            .try_power(Exponent::from_integer(lcm))
+                            .ok_or_else(|| overflow(&elaborated_statement))?,
                     ),
                 );
 
-                elaborated_statement.apply(&s).unwrap();
+                elaborated_statement.apply(&s).map_err(|e| {
+                    TypeCheckError::SubstitutionError(
+                        elaborated_statement.pretty_print().to_string(),
+                        e,
+                    )
+                })?;
             }
         }
 
